@@ -71,6 +71,34 @@ CLAIMS['C20'] = dict(
        '(int [rows,d], [d+1], [d]) as the consumer expects.',
   note='Not decided: recovery of the sampled tensor (numerical, generic), the block layout values.')
 
+CLAIMS['C01'] = dict(
+  technique='symbolic shape typing by abstract interpretation (einsum letter unification, block concatenation, Kronecker reshape) + scalar-degree facet',
+  text='Decides the structural part only, for d = 2,3 (thorough: 4) and symbolic unequal ranks / mode sizes: every contraction, '
+       'einsum, concatenation (axis and zero-block sizes of add), Kronecker reshape, index and store of the evaluation and '
+       'algebra routines is dimension consistent for tensor and number operands; add/sub/mul/outer/add_many/outer_many/copy '
+       'return well-formed tensors with ranks a+b / a*b / a and the input mode sizes; full returns exactly the d mode axes; '
+       'ranks/shape/size report the core dimensions; a number operand enters the cores with total degree 1.',
+  note='Not decided (the numerical core): values, weights of mean, block contents, rounding, the bit-for-bit integer claim; '
+       'getter (numba). Loops over cores are unrolled for d <= 4: first/middle/last core behaviour is covered, not an induction on d.')
+CLAIMS['C07'] = dict(
+  technique='kind/shape typing of the ALS sweeps + solve-path and weight-dependency rules + stop protocol rules',
+  text='Decides the structural part only: the slice-skipping test is applied to a value whose truth means "no samples"; '
+       'interface updates (einsum with out=), normal equations and core reshapes are dimension consistent in both half-sweeps '
+       'of als and als_func; constant-rank mode returns the shape and ranks of the initial tensor; every core-slice update goes '
+       'through the regularised weighted helper with lamb and w forwarded; w enters both AtA and Aty; the system is AtA + lamb I; '
+       'missing slices are rejected unless allowed; sweep counter / callback / stop protocol; adaptive mode sends the weights '
+       'toward the core visited next.',
+  note='Not decided: monotone descent, per-core optimality as values, restart equivalence, sample-order independence.')
+CLAIMS['C11'] = dict(
+  technique='well-formedness typing of every TT-returning routine for unconstrained symbolic sizes + NaN-taint / guarded-division dataflow',
+  text='Decides: every TT-returning routine (29 functions, every documented flag literal, d = 2,3) returns a well-formed tensor '
+       'with the expected mode sizes for unconstrained symbolic sizes (covers rank 1, d = 2, mode size 1, over-ranked cores); '
+       'the truncated factorisations keep the rank floor max(1,.); no division / reciprocal / log with a data-derived, unguarded '
+       'denominator flows into a returned tensor or into norm/sum/mean/mul_scalar/erank/accuracy; the -1 sentinel branch of '
+       'accuracy dominates the quotient.',
+  note='Not decided: overflow/underflow, LAPACK finiteness, NaN from user data. Accepted denominators are an explicit table '
+       '(dense convenience path of accuracy). Grid sizes n_k >= 2 assumed for the Chebyshev routines.')
+
 _PENDING = 'check not built yet in this session (see DESIGN.md section 7 build order); not claimed'
 NOT_APPLICABLE = {p: _PENDING for p in
                   ['C01', 'C02', 'C03', 'C04', 'C05', 'C06', 'C07', 'C08', 'C11', 'C12', 'C13', 'C14',
